@@ -286,9 +286,12 @@ def r6(c):
         raise AnchorError("BlockExitFormatter.blocks_and_context: row loop / running block level not found")
     E, B = loops[0].target.elts[0].id, augs[0].target.id
 
+    init0 = [n for n in walk_no_nested(fn) if isinstance(n, ast.Assign) and norm(n.targets[0]) == B]
+    INIT = norm(Provenance(fn).resolve_alias(init0[0].value)) if len(init0) == 1 else "context.level"
+
     def ren(s):
         return {f"{E} is BlockEnd": "is_end", f"BlockEnd is {E}": "is_end", f"{E} is BlockBegin": "is_begin", f"BlockBegin is {E}": "is_begin",
-                f"{B} == context.level": "at_level", f"context.level == {B}": "at_level"}.get(s, s)
+                f"{B} == {INIT}": "at_level", f"{INIT} == {B}": "at_level"}.get(s, s)
     env = G.GuardEnv(rename=ren)
     # a row is never both markers
     axiom = G.Not(G.And(G.Atom("is_begin"), G.Atom("is_end")))
@@ -300,25 +303,32 @@ def r6(c):
     ok = len(inc) == 1 and len(dec) == 1 and len(augs) == 2 and G.equivalent(G.And(gm.formula(inc[0], env, alias=True), axiom), G.And(G.Atom("is_begin"), axiom)) and \
         G.equivalent(G.And(gm.formula(dec[0], env, alias=True), axiom), G.And(G.Atom("is_end"), axiom))
     init = [n for n in walk_no_nested(fn) if isinstance(n, ast.Assign) and norm(n.targets[0]) == B]
-    ok = ok and len(init) == 1 and norm(Provenance(fn).resolve_alias(init[0].value)) == "context.level"
+    # the level starts at the value it is later compared with (the entry level: context.level, or 0 for a relative count)
+    ok = ok and len(init) == 1 and norm(Provenance(fn).resolve_alias(init[0].value)) == INIT and INIT in ("context.level", "0")
     c.check("C09.R6", ok, repo.loc(tm, fn), "BlockExitFormatter/level-tracking", "the running block level does not start at context.level and move +1 on BlockBegin / -1 on BlockEnd", key_text="level-tracking")
     for q, d in tm.defs.items():
         if isinstance(d, ast.FunctionDef) and q.endswith(".block_exit") and not q.startswith("BlockExitFormatter."):
-            # every path through the override yields something of its own or reaches super().block_exit(context)
-            def on_stmt(node, st, ts):
-                if not isinstance(node, ast.stmt):
-                    return [st]
-                for x in ast.walk(node):
-                    if isinstance(x, ast.Call) and isinstance(x.func, ast.Attribute) and x.func.attr == "block_exit" and isinstance(x.func.value, ast.Call) and call_name(x.func.value) == "super":
-                        return ["done"]
-                    if isinstance(x, (ast.Yield, ast.YieldFrom)):
-                        return ["done"]
-                return [st]
-            res = Typestate(on_stmt).run(d.body, "none")
-            # an explicit `return` is a decision to emit nothing; falling off the end without having yielded or delegated is the forgotten default arm
-            ends = {rs for (rs, _f) in res["fall"]}
-            hist_ok = "none" not in ends
-            c.check("C09.R6", hist_ok, repo.loc(tm, d), f"{q}/falls-back-to-super", "some path through the override neither yields its own closing word nor delegates to super().block_exit(context)",
+            # the default arm -- the path on which none of the override's own tests of the row texts holds -- delegates to super().block_exit(context)
+            from sa import symexec
+            dc = repo.canon(tm, d)
+            hist_ok = True
+            n_default = 0
+            for p_ in symexec.paths(dc.body):
+                tests = [(t, pol) for t, pol in p_.conds]
+                fml = G.And(*[(G.formula(t) if pol else G.Not(G.formula(t))) for t, pol in tests])
+                rowatoms = [a_ for a_ in G.atoms(fml) if "startswith" in a_ or "endswith" in a_ or " == " in a_]
+                allfalse = G.And(fml, *[G.Not(G.Atom(a_)) for a_ in rowatoms])
+                if not G.satisfiable(allfalse):
+                    continue
+                n_default += 1
+                delegated = any(k == "call" and isinstance(o.func, ast.Attribute) and o.func.attr == "block_exit" and isinstance(o.func.value, ast.Call) and call_name(o.func.value) == "super"
+                                for k, o, _s in p_.events) or any(k == "yield" and any(isinstance(x, ast.Call) and isinstance(x.func, ast.Attribute) and x.func.attr == "block_exit"
+                                                                                       and isinstance(x.func.value, ast.Call) and call_name(x.func.value) == "super" for x in ast.walk(o))
+                                                                  for k, o, _s in p_.events)
+                if not delegated:
+                    hist_ok = False
+            hist_ok = hist_ok and n_default >= 1
+            c.check("C09.R6", hist_ok, repo.loc(tm, d), f"{q}/falls-back-to-super", "the default arm of the override (no test of the row matched) does not delegate to super().block_exit(context): ordinary blocks lose their exit word",
                     key_text="super")
 
 
